@@ -77,8 +77,11 @@ APPLY = {
 }
 
 
-def gen_value(rng, mutable_ok=True):
+def gen_value(rng, mutable_ok=True, seq_ok=False):
     kinds = ['int', 'float', 'str']
+    if seq_ok:
+        # a ValueTable value may itself be a sequence (stored whole under every key; never mutated by the simulated user)
+        kinds += ['list', 'tuple']
     if mutable_ok:
         kinds += ['list', 'list', 'dict', 'nd', 'nd', 'nested']
     k = rng.choice(kinds)
@@ -89,7 +92,9 @@ def gen_value(rng, mutable_ok=True):
     if k == 'str':
         return {'k': 'str', 'v': rng.choice(['u', 'LJ', 'hs', ''])}
     if k == 'list':
-        return {'k': 'list', 'v': [rng.randrange(10) for _ in range(rng.randrange(0, 4))]}
+        return {'k': 'list', 'v': [rng.randrange(10) for _ in range(rng.randrange(0, 5))]}
+    if k == 'tuple':
+        return {'k': 'tuple', 'v': [rng.randrange(10) for _ in range(rng.randrange(1, 5))]}
     if k == 'nested':
         return {'k': 'list', 'v': [[rng.randrange(10)], rng.randrange(10)]}
     if k == 'dict':
@@ -149,9 +154,9 @@ class World(BaseWorld):
             elif k == 'iter':
                 ops.append({'op': 'iter', 'full': ro.random() < 0.4, 'diagonal': ro.random() < 0.6})
             elif k == 'vset':
-                ops.append({'op': 'vset', 'k': gen_keys(ro, types), 'val': gen_value(ro, mutable_ok=False), 'kc': ro.choice(KEY_CONTAINERS)})
+                ops.append({'op': 'vset', 'k': gen_keys(ro, types), 'val': gen_value(ro, mutable_ok=False, seq_ok=True), 'kc': ro.choice(KEY_CONTAINERS)})
             elif k == 'vsetUnset':
-                ops.append({'op': 'vsetUnset', 'val': gen_value(ro, mutable_ok=False)})
+                ops.append({'op': 'vsetUnset', 'val': gen_value(ro, mutable_ok=False, seq_ok=True)})
             elif k == 'vcheck':
                 ops.append({'op': 'vcheck'})
             elif k == 'viter':
@@ -356,6 +361,8 @@ class World(BaseWorld):
                     vmodel[t] = obj
                 if isinstance(op['k'], list):
                     ctx.probe('v_list_assignment')
+                    if isinstance(obj, (list, tuple)) and len(obj) == len(op['k']):
+                        ctx.probe('v_sequence_value_as_long_as_the_key_list')
             elif name == 'vsetUnset':
                 obj = materialise(op['val'])
                 if vmodel and len(vmodel) < len(types):
@@ -416,7 +423,7 @@ class World(BaseWorld):
         return ['list_x_list', 'setUnset_after_partial', 'mutate_via_reversed_key', 'types4', 'types1',
                 'mutate_one_of_broadcast', 'mutate_caller', 'apply_inplace', 'apply_outofplace', 'partial_then_check',
                 'iter_full', 'iter_diag', 'iter_offdiag', 'v_list_assignment', 'v_setUnset_after_partial',
-                'set_from_stored', 'reassign_one_of_broadcast']
+                'set_from_stored', 'reassign_one_of_broadcast', 'v_sequence_value_as_long_as_the_key_list']
 
     def rule(self):
         return ('Each run = one seed -> type list (1-4 names, incl. multi-character and int names) + 2-25 ops over '
